@@ -1,4 +1,421 @@
 package main
 
-func cmdCheck(id, tier string) int { return 2 }
-func cmdReplay(path string) int   { return 2 }
+import (
+	"encoding/json"
+	"fmt"
+	"os"
+	"path/filepath"
+	"runtime"
+	"sort"
+	"strconv"
+	"strings"
+	"time"
+
+	"golang.org/x/tools/go/ssa"
+)
+
+type TierCfg struct {
+	Params     map[string]int `json:"params"`
+	MaxPreempt int            `json:"max_preempt"`
+	MaxTicks   int            `json:"max_ticks"`
+	MaxPaths   int            `json:"max_paths"`
+	Bounds     string         `json:"bounds"`
+}
+
+type CheckHarness struct {
+	Name     string   `json:"name"`
+	Pkg      string   `json:"pkg"`
+	Func     string   `json:"func"`
+	Desc     string   `json:"desc"`
+	Quick    *TierCfg `json:"quick"`
+	Thorough *TierCfg `json:"thorough"`
+	NoReplay bool     `json:"no_replay"`
+}
+
+type CheckDef struct {
+	Property    string         `json:"property"`
+	Harnesses   []CheckHarness `json:"harnesses"`
+	Assumptions []string       `json:"assumptions"`
+	Outside     []string       `json:"outside_claim"`
+	Stubs       []string       `json:"stubs"`
+}
+
+func loadChecks() (map[string]*CheckDef, error) {
+	b, err := os.ReadFile(filepath.Join(verifDir, "checks.json"))
+	if err != nil {
+		return nil, err
+	}
+	var m map[string]*CheckDef
+	if err := json.Unmarshal(b, &m); err != nil {
+		return nil, err
+	}
+	return m, nil
+}
+
+// expectedIDs scans the harness (and the functions of its package it calls
+// statically) for verifapi.Reach / verifapi.Assert identifiers.
+func expectedIDs(ld *Loaded, fn *ssa.Function) (reach, asserts []string) {
+	seen := map[*ssa.Function]bool{}
+	rs, as := map[string]bool{}, map[string]bool{}
+	var walk func(f *ssa.Function)
+	walk = func(f *ssa.Function) {
+		if f == nil || seen[f] || f.Blocks == nil {
+			return
+		}
+		seen[f] = true
+		for _, b := range f.Blocks {
+			for _, in := range b.Instrs {
+				if mc, ok := in.(*ssa.MakeClosure); ok {
+					walk(mc.Fn.(*ssa.Function))
+				}
+				c, ok := in.(ssa.CallInstruction)
+				if !ok {
+					continue
+				}
+				cal := c.Common().StaticCallee()
+				if cal == nil {
+					continue
+				}
+				if cal.Pkg != nil && cal.Pkg.Pkg.Path() == apiPkg {
+					switch cal.Name() {
+					case "Reach":
+						if k, ok := c.Common().Args[0].(*ssa.Const); ok {
+							rs[strings.Trim(k.Value.ExactString(), `"`)] = true
+						}
+					case "Assert":
+						if k, ok := c.Common().Args[1].(*ssa.Const); ok {
+							as[strings.Trim(k.Value.ExactString(), `"`)] = true
+						}
+					}
+					continue
+				}
+				if cal.Pkg == fn.Pkg && strings.Contains(ld.fset.Position(cal.Pos()).Filename, "zz_verif") {
+					walk(cal)
+				}
+			}
+		}
+	}
+	walk(fn)
+	for k := range rs {
+		reach = append(reach, k)
+	}
+	for k := range as {
+		asserts = append(asserts, k)
+	}
+	sort.Strings(reach)
+	sort.Strings(asserts)
+	return
+}
+
+type funcInfo struct {
+	Name   string `json:"name"`
+	File   string `json:"file"`
+	Line   int    `json:"line"`
+	Instrs int    `json:"instrs"`
+	Hash   string `json:"src_sha256_12"`
+}
+
+func cmdCheck(id, tier string) int {
+	t0 := time.Now()
+	if tier != "quick" && tier != "thorough" {
+		fmt.Fprintln(os.Stderr, "tier must be quick or thorough")
+		return 2
+	}
+	seed := 0
+	if s := os.Getenv("VERIF_SEED"); s != "" {
+		seed, _ = strconv.Atoi(s)
+	}
+	checks, err := loadChecks()
+	if err != nil {
+		fmt.Fprintln(os.Stderr, "checks.json:", err)
+		return 2
+	}
+	def := checks[id]
+	if def == nil {
+		fmt.Fprintln(os.Stderr, "no check registered for", id)
+		return 2
+	}
+	known := loadKnown(id)
+	pkgSet := map[string]bool{}
+	for _, h := range def.Harnesses {
+		pkgSet[h.Pkg] = true
+	}
+	var pkgs []string
+	for p := range pkgSet {
+		pkgs = append(pkgs, p)
+	}
+	sort.Strings(pkgs)
+	ld, err := loadProgram(pkgs)
+	if err != nil {
+		fmt.Fprintln(os.Stderr, "load:", err)
+		writeEvidenceFailure(id, tier, seed, "load error: "+err.Error(), time.Since(t0))
+		return 2
+	}
+	workers := runtime.NumCPU()
+	if w := os.Getenv("VERIF_WORKERS"); w != "" {
+		workers, _ = strconv.Atoi(w)
+	}
+	cross := os.Getenv("VERIF_NOCROSS") == ""
+
+	var results []*HarnessResult
+	inconclusive := []string{}
+	for _, h := range def.Harnesses {
+		tc := h.Quick
+		if tier == "thorough" {
+			tc = h.Thorough
+			if tc == nil {
+				tc = h.Quick
+			}
+		}
+		if tc == nil {
+			continue
+		}
+		cfg := &HarnessCfg{Name: h.Name, Pkg: h.Pkg, Func: h.Func, MaxPreempt: tc.MaxPreempt, MaxTicks: tc.MaxTicks, MaxPaths: tc.MaxPaths,
+			Params: tc.Params, Known: known, NoReplay: h.NoReplay, Desc: h.Desc}
+		if cfg.MaxTicks == 0 {
+			cfg.MaxTicks = 2
+		}
+		res, err := exploreHarness(ld, cfg, workers, cross)
+		if err != nil {
+			fmt.Fprintln(os.Stderr, "explore:", err)
+			inconclusive = append(inconclusive, h.Name+": "+err.Error())
+			continue
+		}
+		fmt.Print(res.summary())
+		results = append(results, res)
+		fn := ld.findFunc(h.Pkg, h.Func)
+		reach, _ := expectedIDs(ld, fn)
+		for _, r := range reach {
+			if res.Reached[r] == 0 {
+				inconclusive = append(inconclusive, fmt.Sprintf("%s: VACUOUS: Reach(%q) never reached", h.Name, r))
+			}
+		}
+		if len(reach) == 0 {
+			inconclusive = append(inconclusive, h.Name+": harness has no Reach witness")
+		}
+		if len(res.Aborts) > 0 {
+			for msg, n := range res.Aborts {
+				inconclusive = append(inconclusive, fmt.Sprintf("%s: unsupported/abort x%d: %s", h.Name, n, firstLine(msg)))
+			}
+		}
+		if res.Unknowns > 0 {
+			inconclusive = append(inconclusive, fmt.Sprintf("%s: %d solver answers unknown/timeout", h.Name, res.Unknowns))
+		}
+		if res.Truncated > 0 {
+			inconclusive = append(inconclusive, fmt.Sprintf("%s: %d paths truncated (budget)", h.Name, res.Truncated))
+		}
+		dis := map[string]int{}
+		for _, d := range res.Disagree {
+			dis[d]++
+		}
+		for d, n := range dis {
+			inconclusive = append(inconclusive, fmt.Sprintf("%s: solver disagreement x%d %s", h.Name, n, d))
+		}
+	}
+
+	// violations
+	exit := 0
+	nViol := 0
+	replayed := 0
+	spurious := 0
+	knownPrinted := map[string]bool{}
+	violPrinted := map[string]bool{}
+	os.MkdirAll(filepath.Join(verifDir, "replays"), 0o755)
+	for _, res := range results {
+		for i, v := range res.Violations {
+			if v.Known {
+				for _, c := range v.Classes {
+					key := v.AssertID + "/" + c
+					if knownPrinted[key] {
+						continue
+					}
+					knownPrinted[key] = true
+					what := c
+					for _, k := range known {
+						if k.Class == c && k.Assert == v.AssertID {
+							what = k.What
+						}
+					}
+					fmt.Printf("KNOWN-FINDING: property=%s %s [%s, class %s]\n", id, what, v.AssertID, c)
+				}
+				continue
+			}
+			key := res.Cfg.Name + "/" + v.AssertID
+			if violPrinted[key] {
+				continue
+			}
+			violPrinted[key] = true
+			path := filepath.Join(verifDir, "replays", fmt.Sprintf("%s-%s-%s-%d.json", id, res.Cfg.Name, sanitizeFile(v.AssertID), i))
+			rf := ReplayFile{Property: id, Harness: res.Cfg.Name, Pkg: res.Cfg.Pkg, Func: res.Cfg.Func, Assert: v.AssertID, Kind: v.Kind, Msg: v.Msg,
+				Model: v.Model, Trace: v.Trace, Observed: v.Observed, Params: res.Cfg.Params}
+			b, _ := json.MarshalIndent(rf, "", " ")
+			os.WriteFile(path, b, 0o644)
+			status := "not-replayable"
+			if !res.Cfg.NoReplay && os.Getenv("VERIF_NOREPLAY") == "" {
+				ok, out, err := nativeReplay(ld, &rf)
+				if err != nil {
+					status = "replay-error: " + err.Error()
+					inconclusive = append(inconclusive, fmt.Sprintf("%s: replay of %s could not run: %v", res.Cfg.Name, v.AssertID, err))
+				} else if ok {
+					status = "reproduced"
+					replayed++
+				} else {
+					status = "NOT reproduced natively (spurious)"
+					spurious++
+					inconclusive = append(inconclusive, fmt.Sprintf("%s: counterexample for %s did not reproduce natively:\n%s", res.Cfg.Name, v.AssertID, tail(out, 15)))
+					continue
+				}
+			}
+			nViol++
+			exit = 1
+			fmt.Printf("VIOLATION property=%s replay=%s\n", id, path)
+			fmt.Printf("  harness=%s assert=%s kind=%s %s [%s]\n", res.Cfg.Name, v.AssertID, v.Kind, v.Msg, status)
+			ks := make([]string, 0, len(v.Model))
+			for k := range v.Model {
+				ks = append(ks, k)
+			}
+			sort.Strings(ks)
+			for _, k := range ks {
+				fmt.Printf("    %s = %s\n", k, v.Model[k])
+			}
+		}
+	}
+	if exit == 0 && len(inconclusive) > 0 {
+		exit = 2
+	}
+	for _, s := range inconclusive {
+		fmt.Printf("INCONCLUSIVE: %s\n", s)
+	}
+	writeEvidence(ld, def, id, tier, seed, results, inconclusive, nViol, replayed, spurious, time.Since(t0))
+	if exit == 0 {
+		fmt.Printf("OK property=%s tier=%s held within bounds (%.1fs)\n", id, tier, time.Since(t0).Seconds())
+	}
+	return exit
+}
+
+func tail(s string, n int) string {
+	ls := strings.Split(strings.TrimSpace(s), "\n")
+	if len(ls) > n {
+		ls = ls[len(ls)-n:]
+	}
+	return strings.Join(ls, "\n")
+}
+
+func sanitizeFile(s string) string {
+	r := strings.NewReplacer("/", "_", " ", "_", ":", "_")
+	return r.Replace(s)
+}
+
+func writeEvidenceFailure(id, tier string, seed int, msg string, wall time.Duration) {
+	ev := map[string]interface{}{
+		"property_id": id, "tier": tier, "seed": seed, "level": "model_checking",
+		"coverage": map[string]interface{}{"evaluations": 0, "distinct_nontrivial": 0, "explanation": "run failed: " + msg},
+		"wall_s":   wall.Seconds(), "violations": 0, "run_failed": msg,
+	}
+	b, _ := json.MarshalIndent(ev, "", " ")
+	os.MkdirAll(filepath.Join(verifDir, "evidence"), 0o755)
+	os.WriteFile(filepath.Join(verifDir, "evidence", id+".json"), b, 0o644)
+}
+
+func writeEvidence(ld *Loaded, def *CheckDef, id, tier string, seed int, results []*HarnessResult, inconclusive []string, nViol, replayed, spurious int, wall time.Duration) {
+	states, trans, paths, feasQ, assertQ, unsat, sat, unknown, concrete, nia, trunc := 0, 0, 0, 0, 0, 0, 0, 0, 0, 0, 0
+	var solverT, solver2T float64
+	funcs := map[string]funcInfo{}
+	icpts := map[string]int{}
+	var samples []interface{}
+	var harnessEv []map[string]interface{}
+	obligations := 0
+	for _, r := range results {
+		states += r.States
+		trans += r.Instrs
+		paths += r.Paths
+		feasQ += r.FeasQ
+		assertQ += r.AssertQ
+		nia += r.NIA
+		trunc += r.Truncated
+		solverT += r.SolverTime.Seconds()
+		solver2T += r.Solver2Time.Seconds()
+		as := map[string]interface{}{}
+		for aid, a := range r.Asserts {
+			unsat += a.Unsat
+			sat += a.Sat
+			unknown += a.Unknown
+			concrete += a.Concrete
+			obligations += a.Checked
+			as[aid] = map[string]int{"checked_on_paths": a.Checked, "unsat": a.Unsat, "decided_concretely": a.Concrete, "sat": a.Sat, "unknown": a.Unknown}
+		}
+		for f, n := range r.Funcs {
+			pos := ld.fset.Position(f.Pos())
+			name := f.String()
+			if pos.Filename == "" && f.Parent() != nil {
+				pos = ld.fset.Position(f.Parent().Pos())
+			}
+			if !strings.HasPrefix(pos.Filename, repoDir) {
+				name = "(dependency) " + name
+			}
+			funcs[name] = funcInfo{Name: name, File: pos.Filename, Line: pos.Line, Instrs: n, Hash: ld.fileHash(pos.Filename)}
+		}
+		for k, n := range r.Intercepts {
+			icpts[k] += n
+		}
+		for _, s := range r.Samples {
+			samples = append(samples, map[string]interface{}{"harness": r.Cfg.Name, "kind": "solved reach witness (solver model of the inputs)", "inputs": s})
+		}
+		bounds := ""
+		for _, h := range def.Harnesses {
+			if h.Name == r.Cfg.Name {
+				tc := h.Quick
+				if tier == "thorough" && h.Thorough != nil {
+					tc = h.Thorough
+				}
+				if tc != nil {
+					bounds = tc.Bounds
+				}
+			}
+		}
+		harnessEv = append(harnessEv, map[string]interface{}{
+			"harness": r.Cfg.Name, "entry": r.Cfg.Pkg + "." + r.Cfg.Func, "desc": r.Cfg.Desc, "bounds": bounds, "params": r.Cfg.Params,
+			"max_preemptions": r.Cfg.MaxPreempt, "paths": r.Paths, "path_ends": r.EndReasons, "paths_truncated": r.Truncated,
+			"symbolic_states": r.States, "ssa_instructions_executed": r.Instrs, "max_decision_depth": r.MaxDepth,
+			"feasibility_queries": r.FeasQ, "assertion_queries": r.AssertQ, "nia_terms": r.NIA, "asserts": as,
+			"reach": r.Reached, "solver_time_s": r.SolverTime.Seconds(), "cross_solver_time_s": r.Solver2Time.Seconds(), "wall_s": r.Wall.Seconds(),
+			"environment_events_fired": r.Events,
+		})
+	}
+	var flist []funcInfo
+	for _, f := range funcs {
+		flist = append(flist, f)
+	}
+	sort.Slice(flist, func(i, j int) bool { return flist[i].Name < flist[j].Name })
+	if len(samples) == 0 {
+		samples = append(samples, "no sample: no harness produced a witness")
+	}
+	if states == 0 {
+		states = 1
+	}
+	if trans == 0 {
+		trans = 1
+	}
+	cov := map[string]interface{}{
+		"states": states, "transitions": trans, "traces_validated_against_impl": replayed, "samples": samples,
+		"evaluations": paths, "distinct_nontrivial": paths,
+		"rule":          "each evaluation is one feasible symbolic path of a harness through the real SSA of /repo (distinct decision prefixes; every path constrains a different region of the symbolic inputs); states = symbolic states created at fork points, transitions = SSA instructions interpreted",
+		"exhaustive":    len(inconclusive) == 0 && trunc == 0,
+		"paths":         paths, "paths_truncated": trunc,
+		"queries":       map[string]int{"feasibility": feasQ, "assertion": assertQ, "assert_unsat": unsat, "assert_decided_concretely": concrete, "assert_sat": sat, "assert_unknown": unknown},
+		"obligations":   obligations, "discharged": unsat + concrete,
+		"nia_terms":     nia,
+		"solver_time_s": map[string]float64{"z3-4.8.12": solverT, "z3-5.1.0(cross-check)": solver2T},
+		"functions_encoded": flist, "intercepts": icpts, "harnesses": harnessEv,
+		"stubs": def.Stubs, "outside_claim": def.Outside, "inconclusive": inconclusive,
+		"spurious_counterexamples": spurious,
+		"explanation":   "bounded symbolic execution of the real Go SSA (regenerated from /repo's working tree on this run); assertions decided by z3 (pc ∧ ¬assert unsat on every path), cross-checked with z3 5.1",
+	}
+	ev := map[string]interface{}{
+		"property_id": id, "tier": tier, "seed": seed, "level": "model_checking", "coverage": cov,
+		"assumptions": def.Assumptions, "wall_s": wall.Seconds(), "violations": nViol,
+	}
+	b, _ := json.MarshalIndent(ev, "", " ")
+	os.MkdirAll(filepath.Join(verifDir, "evidence"), 0o755)
+	os.WriteFile(filepath.Join(verifDir, "evidence", id+".json"), b, 0o644)
+}
